@@ -4,7 +4,7 @@
    IEEE-754 binary64 (Coq primitive floats; what the C code computes), evaluated by coqc for the
    correspondence run; ScaleDefs = box filter, chain of scaled screens, messages (extracted). *)
 From LV Require Import Scale.ScaleQ Scale.ScaleF Scale.ScaleDefs Scale.ScaleProofs Scale.ScaleFProofs
-  Scale.ScalePtr Scale.ScalePtrProofs Scale.ScaleCopy Scale.ScaleAudit
+  Scale.ScalePtr Scale.ScalePtrProofs Scale.ScaleCopy Scale.ScaleAudit Scale.ScaleHistory
   Cursor.CursorProofs Gen.Consts_C17.
 Local Open Scope Z_scope.
 
@@ -249,6 +249,56 @@ Proof. exact area_F_is_Q. Qed.
 Theorem C17_factor_one_size : forall W H, scaled_size W H 1 = Some (W, H).
 Proof. exact factor_one. Qed.
 
+(* ---------------------------------------------------------------- every reachable state (history level) *)
+(* HInv = reference counts are the numbers of users (RefInv) /\ no two screens have the same size /\ every
+   scaled screen of the chain has positive dimensions, all its pixels, and - if it has users - is the box
+   filter of the framebuffer.  True-colour screens, the tree (zero_fix, repaired grid, refresh after a copy).
+   It holds initially and is kept by a client joining, leaving, rfbScalingSetup (any size >= 0: new screen,
+   shared screen, stale unused screen, refusal), and by rfbMarkRectAsModified / rfbDoCopyRect after ANY change
+   of the pixels inside the rectangle. *)
+Theorem C17_inv_init : forall fmt W H f, 1 <= W -> 1 <= H -> HInv fmt (mkst (mkss W H 0 f) [] []).
+Proof. exact hinv_init. Qed.
+
+Theorem C17_inv_join : forall fmt st, HInv fmt st -> HInv fmt (client_new st).
+Proof. exact hinv_client_new. Qed.
+
+Theorem C17_inv_leave : forall fmt st k, HInv fmt st -> HInv fmt (client_gone st k).
+Proof. exact hinv_client_gone. Qed.
+
+Theorem C17_inv_scaling_setup : forall fmt g st k cl w h st',
+  HInv fmt st -> nth_error (clients st) k = Some cl -> calive cl = true -> 0 <= w -> 0 <= h ->
+  geom_ok g (Wm st) (Hm st) w h 0 0 (Wm st) (Hm st) ->
+  scaling_setup true true fmt g st k w h = Some st' -> HInv fmt st'.
+Proof. exact hinv_scaling_setup. Qed.
+
+Theorem C17_inv_modify : forall fmt st src' x y w h geoms st',
+  HInv fmt st ->
+  only_in_rect (ssfb (mainscr st)) src' x y w h ->
+  Forall2 (fun s g => 0 < ssref s -> geom_ok g (Wm st) (Hm st) (ssw s) (ssh s) x y w h) (chain st) geoms ->
+  mark_modified true fmt geoms (set_main_fb st src') = Some st' ->
+  HInv fmt st' /\ ssfb (mainscr st') = src'.
+Proof. exact hinv_modify. Qed.
+
+(* the copy op: the pixels rfbDoCopyRect produces differ from the old ones only inside the destination, so
+   C17_inv_modify applies to it (rfbScheduleCopyRegion refreshes the destination since /repo b141ef8) *)
+Theorem C17_copy_only_in_rect : forall f f' x1 y1 x2 y2 dx dy pix,
+  0 <= fw f -> 0 <= fh f -> copy_pixels f x1 y1 x2 y2 dx dy = Some pix ->
+  (forall s t, fb_get f' s t = if (0 <=? s) && (s <? fw f) && (0 <=? t) && (t <? fh f)
+                               then zidx pix (t * fw f + s) else fb_get f s t) ->
+  only_in_rect f f' x1 y1 (x2 - x1) (y2 - y1).
+Proof. exact copy_only_in_rect. Qed.
+
+(* C17_converges: in EVERY state reachable from an empty screen by these operations (ScaleHistory.step /
+   reachable), every scaled screen that has users is, pixel by pixel, the box filter of the framebuffer as it
+   is now; counts = users; sizes unique.  Premises on the way: the geometries handed to the refreshes satisfy
+   geom_ok (what rfbScaledCorrection/ScaleX must deliver: C17_correction_*_Q_model, C17_F_agrees_Q_on). *)
+Theorem C17_converges : forall fmt st, reachable fmt st ->
+  RefInv st /\ NoDup (sizes st) /\
+  forall s, In s (chain st) -> 0 < ssref s ->
+    forall X Y, 0 <= X < ssw s -> 0 <= Y < ssh s ->
+      fb_get (ssfb s) X Y = Some (ideal_px fmt (ssfb (mainscr st)) (Wm st) (Hm st) (ssw s) (ssh s) X Y).
+Proof. exact converges_reachable. Qed.
+
 (* ---------------------------------------------------------------- F17c: CopyRect and scaled clients *)
 (* REFUTED for the tree: rfbDoCopyRect moves pixels in the framebuffer without refreshing the scaled copies
    (witness: the scaled screen kept, dst, differs from what a refresh of the copied area gives, dst').
@@ -291,12 +341,9 @@ Proof. exact zero_dim_refuted. Qed.
 
 (* ---------------------------------------------------------------- NOT PROVED - tested by the correspondence
    run and the Python oracle only (audit notes/audit_B.md, C17 items 1, 5, 7-10):
-   - history level: C17_converges_step / C17_scaled_copy_cursor_free_step are single refresh steps with geom_ok and
-     Conv as premises.  There is no invariant "every screen of the chain with users is the filtered framebuffer"
-     over join / change / leave / mark_modified (refresh_all, refresh, the base case after scaling_setup): the
-     correspondence run compares every pixel of every scaled screen after EVERY operation instead.
-   - RefInv bounds the SUM of the reference counts per size; that sizes are unique in the chain (find_scaled before
-     allocate) is not part of it.
+   - history level: PROVED since the final round (C17_converges over ScaleHistory.reachable, C17_inv_init .. C17_inv_modify), for
+     true-colour screens and with geom_ok as the premise on every geometry; colour-mapped screens (tc = false)
+     have the single-step statements only.  Sizes unique: part of HInv (NoDup (sizes st)).
    - no lemma links the double geometry upd_geomF / correctionF to geom_ok beyond C17_F_agrees_Q_on,
      C17_area_F_is_Q_on (W <= 240) and C17_correction_inside_F_on (W <= 60); C17_converges_step has no example
      instantiated from a real upd_geomF geometry.  Outside these ranges: correspondence sweep only.
